@@ -77,6 +77,8 @@ def check(rep, tier, seed):
         cls = (vi_classes if vi else em_classes)[(i // 5) % (len(vi_classes) if vi else len(em_classes))]
         cases.append({"vi": vi, "cls": cls, "start": rnd.choice(STARTS), "keys": gen_script(rnd, vi, cls),
                       "reg": rnd.choice("abzQ7") if vi else None})
+    # corpus first: the minimised witness of C18-undo-one-more-command
+    cases.insert(0, {"vi": False, "cls": "undo", "start": "x y", "keys": [b"a", b"\x1f", b"\x0b", b"a"], "reg": None})
     jobs = []
     for c in cases:
         pre = [ch.encode() for ch in c["start"]]
@@ -126,6 +128,20 @@ def check(rep, tier, seed):
             continue
         bad.append({"vi": c["vi"], "class": c["cls"], "start": c["start"], "keys": [list(k) for k in c["keys"]], "register": c["reg"],
                     "retyped": repr(fa), "replayed": repr(fb)})
+    # known finding C18-undo-one-more-command: an emacs macro with an undo in it.  The replay command is itself one more
+    # command, and the Save after ANY command refreshes the cursor kept in the newest undo snapshot: a third session in
+    # which a command that changes nothing (end-kbd-macro while not recording) is run before K is retyped must end exactly
+    # like the replay - then the keys were replayed faithfully and the difference is the undo log's; anything else stays
+    # a violation
+    sus = [b for b in bad if not b["vi"] and [0x1f] in b["keys"]]
+    if sus:
+        jobs3 = [{"scenario": {"calls": 1}, "inputrc": "",
+                  "chunks": [ch.encode() for ch in b["start"]] + [b"\x18("] + [bytes(k) for k in b["keys"]] + [b"\x18)", b"\x18)"] + [bytes(k) for k in b["keys"]]}
+                 for b in sus]
+        for b, r3 in zip(sus, P.run_many(jobs3)):
+            if repr(final(r3)) == b["replayed"]:
+                bad.remove(b)
+                known["C18-undo-one-more-command"] = known.get("C18-undo-one-more-command", 0) + 1
     for kid, n in sorted(known.items()):
         rep.known_finding(kid, KNOWN[kid] + " (%d cases)" % n)
     # the recorder / codec model against the implementation's own notation functions is C19's; here the recorder model
@@ -154,6 +170,10 @@ def check(rep, tier, seed):
 
 
 KNOWN = {
+    "C18-undo-one-more-command": "an emacs macro with an undo in it: the replay command is one more command, and the Save after any command "
+                                 "refreshes the cursor kept in the newest undo snapshot (first stored clamped to the last character, then "
+                                 "refreshed to the real cursor), so a later undo lands one cell away; retyping after any command that "
+                                 "changes nothing ends exactly like the replay",
     "C18-non-ascii-keys": "a macro that contains a non-ASCII character replays it as the single byte byte(rune) (fed keys are runes popped as "
                           "bytes), not as the character's UTF-8 bytes",
     "C18-vi-esc-then-keys": "a vi macro in which ESC is followed by further keys replays ESC and the next key as one Meta-prefixed sequence "
